@@ -25,19 +25,26 @@ import numpy as np
 from rv import gen, oracle
 
 PLAN = {
-    "quick": {"cases": 330, "hashseeds": 3, "shards": 5, "timeout": 420, "min_nontrivial": 150},
-    "thorough": {"cases": 4800, "hashseeds": 8, "shards": 2, "timeout": 3000, "min_nontrivial": 2500},
+    "quick": {"cases": 330, "hashseeds": 3, "shards": 5, "timeout": 900, "min_nontrivial": 150},
+    "thorough": {"cases": 2400, "hashseeds": 8, "shards": 2, "timeout": 4500, "min_nontrivial": 1200},
 }
+if os.environ.get("RV_C09_CASES"):        # development aid: run only a prefix of the same case stream
+    for _t in PLAN.values():
+        _n = max(12, int(os.environ["RV_C09_CASES"]))
+        _t["min_nontrivial"] = max(5, _t["min_nontrivial"] * _n // _t["cases"])
+        _t["cases"] = _n
 RULE = ("random discrete BNs (quick: 1-6 nodes, cards 1-5, 0-4 parents; thorough: 1-8 nodes, cards 1-6, 0-5 "
         "parents) with parents in shuffled declared order and (mostly) pairwise distinct parent cardinalities; "
-        "variable / state names are identifiers: neutral, random, or containing a format keyword as prefix / "
-        "suffix / infix (variable, probability, network, table, default, node, potential, states, data, property, "
-        "type, net, given, for, outcome); a few models use pgmpy's default integer state names (compared as "
-        "strings); tables: full-precision grid with exact 0/1 columns, magnitudes 1e-12..1 renormalised, "
-        "<=4-decimal values, deterministic; one case in 30 has a table with > 1000 entries; one case in 6 is a "
-        "Markov network (UAI only; cycles, duplicate factors, unary factors, isolated nodes, tiny values). Every "
-        "model goes through all four (MN: one) writer->reader pairs and through save/load. non-trivial: BN with "
-        ">= 2 nodes and >= 1 edge, or MN with >= 1 edge; distinct by digest of the whole spec")
+        "variable / state names are identifiers: neutral, random (a few with a leading underscore), or containing a "
+        "format keyword as prefix / suffix / infix, lower or upper case (variable, probability, network, table, "
+        "default, node, potential, states, data, property, type, net, given, for, outcome, definition); one model in "
+        "six uses pgmpy's default integer state names (compared as strings); tables: full-precision grid with exact "
+        "0/1 columns, magnitudes 1e-12..1 renormalised, <=4-decimal values, deterministic; two cases in 30 have a "
+        "table with > 1000 entries (cards up to 9 there, so that numpy's elision can apply). case idx % 6: 0,1 (and 2 "
+        "in quick) -> all four writer/reader pairs; (2,) 3, 4 -> XMLBIF, UAI, NET only (BIFReader needs ~2 s per "
+        "construction); 5 -> Markov network through UAI (2-6/7 nodes, cards 2-5, cycles, duplicate and unary factors, "
+        "isolated nodes, tiny values). save/load: XMLBIF and UAI on every BN, BIF on a quarter of the BIF cases. "
+        "non-trivial: BN with >= 2 nodes and >= 1 edge, or MN with >= 1 edge; distinct by digest of the whole spec")
 ASSUMPTIONS = ["brute-force joint of the spec (<= 20 000 cells) is the reference",
                "exact formats compared at 1e-15 relative per table entry / 1e-13 per joint cell; NET at 0.5e-4 "
                "per entry and n*0.5e-4 per joint cell",
@@ -82,7 +89,7 @@ KEYWORDS = ["variable", "probability", "network", "table", "default", "node", "p
             "data", "property", "type", "discrete", "net", "given", "for", "outcome", "definition"]
 DESIGN_NAMES = ["variable1", "my_probability", "network_x", "tablet", "node_a", "potential_b", "default0",
                 "property_p", "states_s", "data_d", "table1", "leafnode", "my_node", "tablee", "subnetwork",
-                "typed", "xdefault", "nodes", "probability_of_rain", "is_variable", "defaultE1", "the_table"]
+                "typed", "xdefault", "nodes", "subnode", "parent_node", "probability_of_rain", "is_variable", "defaultE1", "the_table"]
 PLAIN_POOL = ["A", "B", "C", "D", "E", "F", "G", "H", "Rain", "Sprinkler", "GrassWet", "x1", "x2", "x_3",
               "Smoker", "lung", "xray", "dysp", "T", "alpha", "Beta", "q7", "Z_z", "n0", "kid", "HearBark",
               "u", "w", "Cloudy", "burglary", "JohnCalls", "m_1", "m_2", "VAR", "yy", "p0", "p1"]
@@ -104,6 +111,8 @@ def keyword_name(rng):
     if r < 0.45:
         return rng.choice(DESIGN_NAMES)
     kw = rng.choice(KEYWORDS)
+    if rng.random() < 0.2:
+        kw = kw.upper()            # XMLBIF tag names are upper case
     if r < 0.6:
         return kw + rng.choice(["0", "1", "7", "_x", "_a", "s", "X", "e", "E5", "2b"])
     if r < 0.8:
@@ -225,9 +234,9 @@ def bn_spec(rng, tier, big=False):
         # one family whose table has > 1000 entries (numpy's print threshold)
         while True:
             k = rng.randint(2, max_par)
-            pc = [rng.randint(2, 8) for _ in range(k)]
-            cc = rng.randint(2, 8)
-            if rng.random() < 0.6:        # numpy only elides an axis longer than 2*edgeitems = 6
+            pc = [rng.randint(2, 6) for _ in range(k)]
+            cc = rng.randint(2, 6)
+            if rng.random() < 0.5:        # numpy only elides an axis longer than 2*edgeitems = 6
                 if rng.random() < 0.5:
                     cc = rng.randint(7, 9)
                 else:
@@ -331,15 +340,17 @@ def mn_spec(rng, tier):
 
 
 def gen_case(seed, idx, tier):
-    """idx % 6: 0,1,2 -> BN through all four formats; 3,4 -> BN through XMLBIF / UAI / NET only (BIFReader costs
-    ~2 s per construction under pyparsing 3, so BIF gets half of the models); 5 -> Markov network (UAI)."""
+    """idx % 6: 0,1,(2 in quick) -> BN through all four formats; (2),3,4 -> BN through XMLBIF / UAI / NET only
+    (BIFReader costs ~2 s per construction under pyparsing 3, so BIF gets about half of the models);
+    5 -> Markov network (UAI)."""
     rng = gen.rng_for("C09", seed, idx)
     if idx % 6 == 5:
         return {"type": "mn", "mn": mn_spec(rng, tier), "build_seed": rng.randrange(10 ** 6)}
-    big = idx % 30 in (2, 3)
+    big = idx % 30 in (1, 3)
+    full = idx % 6 < (3 if tier == "quick" else 2)
     spec = {"type": "bn", "bn": bn_spec(rng, tier, big=big), "build_seed": rng.randrange(10 ** 6),
             "sl_ext": rng.random() < 0.5, "n_jobs": 1,
-            "formats": list(FORMATS if idx % 6 < 3 else FORMATS[1:]),
+            "formats": list(FORMATS if full else FORMATS[1:]),
             "sl_bif": rng.random() < 0.25}
     if tier == "thorough" and idx in (6, 7):
         spec["n_jobs"] = 2
@@ -640,24 +651,56 @@ def compare_bn_uai(bn, view, J):
     rb_edges = set(view["edges"])
     if len(rb_edges) != len(want_edges):
         return [Problem("c09:uai:edges", f"{len(rb_edges)} edges read back ({sorted(rb_edges)}), {len(want_edges)} written")]
+    # candidate renamings: a spec node may only map to a read-back node with the same cardinality, in/out degree
+    # and multiset of table entries (first pass); without the entries if that leaves no candidate (second pass,
+    # only to word the diagnosis)
+    def sig_spec(v, with_values):
+        c = bn["cpds"][v]
+        s = (bn["card"][v], len(c["parents"]), sum(1 for a, b in want_edges if a == v))
+        return s + (tuple(sorted(x for row in c["table"] for x in row)),) if with_values else s
+
+    def sig_rb(r, with_values):
+        s = (rb_card[r], sum(1 for a, b in rb_edges if b == r), sum(1 for a, b in rb_edges if a == r))
+        return s + (tuple(sorted(view["cpds"][r][2].ravel().tolist())),) if with_values else s
+
     best = None
     n_cand = 0
-    for perm in itertools.permutations(rb_nodes):
-        ren = dict(zip(nodes, perm))
-        if any(rb_card[ren[v]] != bn["card"][v] for v in nodes):
-            continue
-        if any((ren[a], ren[b]) not in rb_edges for a, b in want_edges):
-            continue
-        n_cand += 1
-        P = compare_bn(bn, view, "uai", ren=ren, positional=True, J=J, try_parent_perms=True)
-        if not P:
-            return []
-        score = (sum(1 for p in P if p.generic), len(P))
-        if best is None or score < best[0]:
-            best = (score, P, ren)
+    for with_values in (True, False):
+        options = {v: [r for r in rb_nodes if sig_rb(r, with_values) == sig_spec(v, with_values)] for v in nodes}
+        order = sorted(nodes, key=lambda v: len(options[v]))
+
+        def rec(i, used, ren):
+            if i == len(order):
+                yield dict(ren)
+                return
+            v = order[i]
+            for r in options[v]:
+                if r not in used:
+                    used.add(r)
+                    ren[v] = r
+                    yield from rec(i + 1, used, ren)
+                    used.discard(r)
+                    del ren[v]
+
+        for ren in rec(0, set(), {}):
+            if any((ren[a], ren[b]) not in rb_edges for a, b in want_edges):
+                continue
+            n_cand += 1
+            if n_cand > 3000:
+                break
+            P = compare_bn(bn, view, "uai", ren=ren, positional=True, J=J, try_parent_perms=True)
+            if not P:
+                return []
+            score = (sum(1 for p in P if p.generic), len(P))
+            if best is None or score < best[0]:
+                best = (score, P, ren)
+        if best is not None:
+            break
     if best is None:
-        return [Problem("c09:uai:no-bijection", f"no cardinality- and edge-respecting renaming of {rb_nodes} onto "
-                        f"{nodes}: edges read back {sorted(rb_edges)}, written {sorted(want_edges)}")]
+        return [Problem("c09:uai:no-bijection", f"no cardinality-, degree- and edge-respecting renaming of {rb_nodes} "
+                        f"onto {nodes}: edges read back {sorted(rb_edges)}, written {sorted(want_edges)}")]
+    if n_cand > 3000 and any(p.generic for p in best[1]):
+        return [Problem("c09:uai:search-cap", "more than 3000 admissible renamings tried without success", generic=False)]
     for p in best[1]:
         p.what += f" [best of {n_cand} renamings: {best[2]}]"
     return best[1]
@@ -938,6 +981,8 @@ def run_case(spec, ctx):
               "single-value-table" if bn_single_value_nodes(bn) else None,
               "card1" if 1 in bn["card"].values() else None,
               "exponent-entries" if bn_has_exponent(bn) else None,
+              "underscore-lead-name" if any(v.startswith("_") for v in bn_names(bn)) else None,
+              "keyword-in-name" if any(k in x.lower() for x in bn_names(bn) for k in KEYWORDS if len(k) > 3) else None,
               "n_jobs=2" if spec.get("n_jobs", 1) != 1 else None):
         if f:
             ctx.feature(f)
